@@ -90,6 +90,7 @@ class World(object):
         self.budget = int(scn.get("budget", 200000))
         self.op_budget = None
         self.op_seq0 = 0
+        self.foreign = False
         self.op_index = -1
         self.op_counts = {}
         self.calls = []            # peer call records of the current op
@@ -347,7 +348,8 @@ class World(object):
         rec["returned"] = True
         rec["seq1"] = self.seq
         rec["out"] = out
-        self.jacreq_returned += 1
+        if not self.foreign:
+            self.jacreq_returned += 1
 
     def arm_alloc_fault(self):
         flt = self.fault_for("alloc", self.op_counts.get("alloc", 0) + 1)
@@ -555,6 +557,27 @@ class World(object):
             self.jacreq_at_reset = self.jacreq_returned
             self.apply_knobs()
             self.probe("reset")
+        elif kind == "foreign_system":
+            # a SECOND system built from the very same right-hand side object and run for a while: whatever it does is no business of
+            # the first system's counters (its peer calls are tallied apart)
+            import desolver as de
+            s_ = self.scn["system"]
+            self.foreign = True
+            try:
+                other = de.OdeSystem(self.rhs, self.problem.y0(), t=(s_["t0"], s_["tf"]), dt=abs(s_["dt"]), rtol=s_.get("rtol"), atol=s_.get("atol"),
+                                     constants=dict(s_.get("constants") or {}))
+                other.method = method_class(s_["method"])
+                other.integrate(s_["t0"] + (s_["tf"] - s_["t0"]) * op.get("frac", 0.3))
+                if op.get("reset_other"):
+                    other.reset()
+            except (BudgetExceeded, WallTimeout):
+                raise
+            except Exception as e:
+                exc = e
+            finally:
+                self.foreign = False
+        elif kind == "del_constants":
+            del sysm.constants          # the documented way to drop the constants: the right-hand side falls back to its defaults
         elif kind == "jac_hook":
             J = SimJac(self, self.problem, "hook%d" % i)
             self.jac_peers.append(J)
